@@ -55,7 +55,7 @@ where
         {
             let o = self.dst.write_buf()?;
             if o.is_empty() {
-                return Ok(BlockRet::Again);
+                return Ok(BlockRet::WaitForStream(&self.dst, 1));
             }
         }
         if self.current_delay > 0 {
